@@ -405,6 +405,9 @@ class Kernel:
     # --------------------------------------------------------------- network
     def transmit(self, src, dst, data, delay_us=None):
         """Put a datagram on the virtual wire."""
+        if len(data) > 65507:
+            self.emit("oversize", "net", src=src, dst=dst, n=len(data))     # cannot exist as a UDP datagram
+            return
         if self.link_policy is not None and delay_us is None:
             delays = self.link_policy(src, dst, data)
             if delays is None:
